@@ -11,6 +11,8 @@ Write/Close/Reset (induction over the op list).
 import Compress.Proofs.XFlateWriterLatch
 import Compress.Proofs.BitIO
 import Compress.Proofs.BzWApiNoFalse
+import Compress.Proofs.BzWApiCount
+import Compress.Proofs.BzWApiPrefix
 import Compress.Proofs.MetaWApi
 
 namespace Compress.Props.C13
@@ -118,6 +120,45 @@ theorem C13_bzip2_close_nil_complete (lvl : Int) (sk : Sink) (s0 : BzW) (h0 : ne
     let s := (BzW.run s0 ops).1
     (s.close).2 = none → ∃ out, encodeStream s.level s.acc = some out ∧ (s.close).1.bw.sink.got = s.base ++ out :=
   fun hc => close_nil_complete _ (exact_run ops s0 (exact_new lvl sk s0 h0).1) hc
+
+/-- **counters**: after every call (also failing ones, also across Reset) InputOffset = bytes accepted
+    by Write since the last Reset, OutputOffset = bytes the current sink accepted since it was attached. -/
+theorem C13_bzip2_counters (lvl : Int) (sk : Sink) (s0 : BzW) (h0 : newBzW lvl sk = some s0) (ops : List BzOp) :
+    Counted (BzW.run s0 ops).1 := by
+  refine counted_run ops s0 ?_
+  unfold newBzW at h0
+  split at h0
+  · simp only [Option.some.injEq] at h0
+    subst h0
+    exact counted_reset _ sk
+  · cases h0
+
+/-- the ghost record of accepted data grows by exactly the bytes Write reports. -/
+theorem C13_bzip2_accepted (s : BzW) (d : List UInt8) :
+    (s.write d).1.acc = s.acc ++ d.take (s.write d).2.1 ∧ (s.write d).2.1 ≤ d.length :=
+  write_acc s d
+
+/-- the sink is append-only. -/
+theorem C13_bzip2_sink_append_only (s : BzW) (op : BzOp) (h : op.noReset) :
+    ∃ suf, (s.step op).1.bw.sink.got = s.bw.sink.got ++ suf :=
+  sink_append_only s op h
+
+/-- **prefix, part 1**: as long as the sink has not refused anything, the run is the fault-free run:
+    same results, same bytes in the sink (`unb` = the same writer over the sink that never fails). -/
+theorem C13_bzip2_same_until_failure (s : BzW) (hf : s.bw.sink.failed = false) (ops : List BzOp)
+    (hn : ∀ op ∈ ops, op.noReset) :
+    (BzW.run s ops).1.bw.sink.failed = false →
+      unb (BzW.run s ops).1 = (BzW.run (unb s) ops).1 ∧ (BzW.run s ops).2 = (BzW.run (unb s) ops).2 :=
+  sink_same_until_failure s hf ops hn
+
+/-- **prefix, part 2**: the bytes received by a sink that fails (at any position, hard or short, any
+    tag) and keeps failing are a prefix of the bytes the never-failing sink receives for the same calls.
+    (`forever` is needed: after a recovered write failure bzip2.Writer still calls `wr.Flush()` once in
+    the same call, so a sink that fails only once can be handed further bytes.) -/
+theorem C13_bzip2_sink_prefix (s : BzW) (hf : s.bw.sink.failed = false) (hfor : s.bw.sink.forever = true)
+    (ops : List BzOp) (hn : ∀ op ∈ ops, op.noReset) :
+    (BzW.run s ops).1.bw.sink.got <+: (BzW.run (unb s) ops).1.bw.sink.got :=
+  sink_prefix s hf hfor ops hn
 
 /-- the hypotheses are satisfiable: NewWriter(level 9) over a sink that fails after 5 bytes. -/
 example : ∃ s0, newBzW 9 { budget := some 5, mode := .short, forever := false } = some s0 ∧ Latched s0 :=
